@@ -1899,15 +1899,16 @@ func (p *pipe) Close() {
 		}
 		if block == 1 && (stopping1 || stopping2) { // make sure there is no block cmd
 			p.incrWaits()
-			ch, _ := p.queue.PutOne(context.Background(), cmds.PingCmd)
-			select {
-			case <-ch:
+			done := make(chan struct{})
+			go func() { // PutOne itself blocks while the queue is full, so it must not run on the closing goroutine
+				ch, _ := p.queue.PutOne(context.Background(), cmds.PingCmd)
+				<-ch
 				p.decrWaits()
+				close(done)
+			}()
+			select {
+			case <-done:
 			case <-time.After(time.Second):
-				go func(ch chan RedisResult) {
-					<-ch
-					p.decrWaits()
-				}(ch)
 			}
 		}
 	}
